@@ -2,6 +2,7 @@ package main
 
 import (
 	"math/big"
+	"strings"
 
 	"github.com/cockroachdb/apd/v3"
 )
@@ -88,7 +89,12 @@ func errStr(err error) string {
 	if err == nil {
 		return ""
 	}
-	return err.Error()
+	s := err.Error()
+	// the system-limit refusal of upscale is wrapped with the operation's name ("add: exponent out of range")
+	if strings.HasSuffix(s, ": exponent out of range") {
+		return "exponent out of range"
+	}
+	return s
 }
 
 type apdBigInt = apd.BigInt
